@@ -3,6 +3,7 @@
 package srv
 
 import (
+	"bufio"
 	"bytes"
 	"encoding/json"
 	"fmt"
@@ -136,6 +137,43 @@ func (s *Server) PostStream(path string, body io.Reader) (*http.Response, error)
 	}
 	req.Header.Set("Content-Type", "application/json")
 	return s.Client.Do(req)
+}
+
+// PostHalfClosed sends the whole request over a plain TCP connection, closes the
+// sending half (as `… | nc host port` or shutdown(SHUT_WR) do) and then reads
+// the response from the half that stays open.  The caller closes the returned
+// response body, which closes the connection.
+func (s *Server) PostHalfClosed(path string, body []byte, timeout time.Duration) (*http.Response, error) {
+	conn, err := net.DialTimeout("tcp", fmt.Sprintf("127.0.0.1:%d", s.Port), 10*time.Second)
+	if err != nil {
+		return nil, err
+	}
+	_ = conn.SetDeadline(time.Now().Add(timeout))
+	hdr := fmt.Sprintf("POST %s HTTP/1.1\r\nHost: 127.0.0.1:%d\r\nContent-Type: application/json\r\nContent-Length: %d\r\n\r\n", path, s.Port, len(body))
+	if _, err := conn.Write(append([]byte(hdr), body...)); err != nil {
+		conn.Close()
+		return nil, err
+	}
+	if tc, ok := conn.(*net.TCPConn); ok {
+		_ = tc.CloseWrite()
+	}
+	resp, err := http.ReadResponse(bufio.NewReader(conn), nil)
+	if err != nil {
+		conn.Close()
+		return nil, err
+	}
+	resp.Body = &connBody{resp.Body, conn}
+	return resp, nil
+}
+
+type connBody struct {
+	io.ReadCloser
+	conn net.Conn
+}
+
+func (b *connBody) Close() error {
+	_ = b.ReadCloser.Close()
+	return b.conn.Close()
 }
 
 // Log returns the server's stdout+stderr so far.
